@@ -281,7 +281,7 @@ def run(tier):
         per = 400000
         ncall = mb * 1000000 // (per * 11)
         growth = 1.6 if mode == "fit17" else 1.0
-        cmds = ["wrap reset", "wrap forcemove 0", "new 0 int", "new 1 ext %d H 0xcc" % int(mb * 1000000 * growth + 8 * 1024 * 1024)]
+        cmds = ["watchdog 900", "wrap reset", "wrap forcemove 0", "new 0 int", "new 1 ext %d H 0xcc" % int(mb * 1000000 * growth + 8 * 1024 * 1024)]
         if mode == "fit17":
             cmds += ["chunk 0 17", "chunk 1 17"]
         for k in range(ncall):
@@ -290,7 +290,7 @@ def run(tier):
                 cmds += ["cnt 0 16 %s" % txt, "cnt 1 16 %s" % txt, "sumoff 0", "sumoff 1"]
             else:
                 cmds += ["asmrep 0 %d %s" % (per, common.hx("nop11")), "asmrep 1 %d %s" % (per, common.hx("nop11")), "sumoff 0", "sumoff 1"]
-        cmds += ["asm 0 %s" % common.hx("mov rax, 0x%x\nret" % K), "exec 0", "wrapreport"]
+        cmds += ["asm 0 %s" % common.hx("mov rax, 0x%x\nret" % K), "exec 0", "wrapreport", "watchdog 20"]
         hcases.append(cmds)
         hmeta.append((mb, mode, ncall, K))
     hres = common.run_cases(binary, hcases, tag="c08h", per_case_timeout=900)
@@ -302,7 +302,7 @@ def run(tier):
             v.violation(case, r["crash"]["sig"], (r["crash"]["what"] + "\n" + r["crash"]["stderr"][-800:]))
             continue
         recs = r["records"]
-        base = 4 + (2 if mode == "fit17" else 0)
+        base = 5 + (2 if mode == "fit17" else 0)
         bad = None
         for k in range(ncall):
             a0, a1, s0, s1 = (recs[base + 4 * k + j].split() for j in range(4))
@@ -315,7 +315,7 @@ def run(tier):
             if bad:
                 break
         if not bad:
-            e = recs[-2].split()
+            e = recs[-3].split()
             if e[:2] != ["V", "ok"] or int(e[2], 16) != K:
                 bad = ("execution:" + "-".join(e[1:3]), "got %s want 0x%x" % (" ".join(e), K))
         if bad:
